@@ -444,7 +444,7 @@ def _bind_args(callee: ast.FunctionDef, call: ast.Call, ren: T.Dict[str, str]) -
     if a.vararg or a.kwarg or a.posonlyargs or any(isinstance(x, ast.Starred) for x in call.args) or any(k.arg is None for k in call.keywords):
         return None
     params = [p.arg for p in a.args]
-    is_method = isinstance(call.func, ast.Attribute)
+    is_method = isinstance(call.func, ast.Attribute) and not any((attr_chain(d) or '') == 'staticmethod' for d in callee.decorator_list)
     if is_method:
         if not params or params[0] != 'self':
             return None
@@ -499,6 +499,9 @@ def inline_helpers(fn: ast.FunctionDef, methods: T.Dict[str, T.Any], vocab: T.It
         if not isinstance(c, ast.Call):
             return None
         m = self_method_called(c)
+        if not m and isinstance(c.func, ast.Attribute) and isinstance(c.func.value, ast.Name) and c.func.value.id[:1].isupper() and c.func.attr in methods \
+                and any((attr_chain(d) or '') == 'staticmethod' for d in methods[c.func.attr].decorator_list):
+            m = c.func.attr                    # a static helper called through the class name
         if m and m not in vocab and m != fn.name and m in methods:
             callee = methods[m]
         elif isinstance(c.func, ast.Name) and modfuncs and c.func.id in modfuncs and c.func.id != fn.name:
@@ -672,6 +675,31 @@ def inline_helpers(fn: ast.FunctionDef, methods: T.Dict[str, T.Any], vocab: T.It
 
     new_fn = copy.deepcopy(fn)
     new_fn.body = block(new_fn.body, depth)
+
+    class Expr1(ast.NodeTransformer):
+        """a helper whose whole body is `return <expression>` is put in place wherever it is called (arguments for parameters)"""
+        def visit_Call(self, c: ast.Call) -> ast.AST:
+            self.generic_visit(c)
+            callee = eligible(c)
+            if callee is None:
+                return c
+            body = [s_ for s_ in callee.body if not (isinstance(s_, ast.Expr) and isinstance(s_.value, ast.Constant))]
+            if len(body) != 1 or not isinstance(body[0], ast.Return) or body[0].value is None:
+                return c
+            binds = _bind_args(callee, c, {a.arg: a.arg for a in callee.args.args + callee.args.kwonlyargs})
+            if binds is None:
+                return c
+            m = {T.cast(ast.Name, b.targets[0]).id: b.value for b in binds}  # type: ignore[attr-defined]
+            if any(isinstance(n, (ast.Lambda, ast.ListComp, ast.SetComp, ast.DictComp, ast.GeneratorExp)) and
+                   {x.id for x in ast.walk(n) if isinstance(x, ast.Name) and isinstance(x.ctx, ast.Store)} & set(m) for n in ast.walk(body[0].value)):
+                return c
+
+            class Put(ast.NodeTransformer):
+                def visit_Name(self, n: ast.Name) -> ast.AST:
+                    return copy.deepcopy(m[n.id]) if isinstance(n.ctx, ast.Load) and n.id in m else n
+            return ast.copy_location(Put().visit(copy.deepcopy(body[0].value)), c)
+    for _ in range(depth):
+        new_fn.body = [Expr1().visit(st) for st in new_fn.body]
     return ast.fix_missing_locations(new_fn)
 
 
@@ -741,6 +769,16 @@ class _Canon(ast.NodeTransformer):
                 rest = [k for k in c.keywords if k.arg in kws]
                 rest.sort(key=lambda k: params.index(k.arg) if k.arg in params else 999)
                 c = ast.copy_location(ast.Call(func=c.func, args=args, keywords=rest), c)
+        # set(A).isdisjoint(B) == not any(x in B for x in A)
+        if isinstance(c.func, ast.Attribute) and c.func.attr in ('isdisjoint', 'intersection') and len(c.args) == 1 and not c.keywords \
+                and isinstance(c.func.value, ast.Call) and attr_chain(c.func.value.func) in ('set', 'frozenset') and len(c.func.value.args) == 1:
+            a_, b_ = c.func.value.args[0], c.args[0]
+            if isinstance(b_, ast.Call) and attr_chain(b_.func) in ('set', 'frozenset') and len(b_.args) == 1:
+                b_ = b_.args[0]
+            anyc = ast.Call(func=ast.Name(id='any', ctx=ast.Load()), args=[ast.GeneratorExp(
+                elt=ast.Compare(left=ast.Name(id='_m', ctx=ast.Load()), ops=[ast.In()], comparators=[b_]),
+                generators=[ast.comprehension(target=ast.Name(id='_m', ctx=ast.Store()), iter=a_, ifs=[], is_async=0)])], keywords=[])
+            return ast.copy_location(ast.UnaryOp(op=ast.Not(), operand=anyc) if c.func.attr == 'isdisjoint' else anyc, c)
         # '{}..'.format(a)
         if isinstance(c.func, ast.Attribute) and c.func.attr == 'format' and isinstance(c.func.value, ast.Constant) and isinstance(c.func.value.value, str) \
                 and not c.keywords and not any(isinstance(a, ast.Starred) for a in c.args):
